@@ -276,7 +276,7 @@ def run(prog, rep):
                        "self.obj.itersections(recursive=True) validate(section) and validate(each of section.properties)")
     rv = vcls.lookup_method("run_validation")
     me = rv.params[0]
-    vcalls = [e for e in effect_calls(prog, rv, lambda c: isinstance(c.func, ast.Attribute) and c.func.attr == "validate")
+    vcalls = [e for e in effect_calls(prog, rv, lambda c: isinstance(c.func, ast.Attribute) and c.func.attr == "validate", expanded=True)
               if unparse(e.call.func) == "%s.validate" % me and len(e.call.args) == 1]
     targets = [unparse(e.call.args[0]) for e in vcalls]
     secs = [t for t in targets if re.match(r"^EACH\(%s\.obj\.itersections\((.*)\)\)$" % re.escape(me), t)]
@@ -295,7 +295,7 @@ def run(prog, rep):
               "the validated object itself is not validated on every path", rv.where)
     val = vcls.lookup_method("validate")
     vme, vobj = val.params[0], val.params[1]
-    recs = [unparse(e.call) for e in effect_calls(prog, val, lambda c: isinstance(c.func, ast.Attribute) and c.func.attr == "error")
+    recs = [unparse(e.call) for e in effect_calls(prog, val, lambda c: isinstance(c.func, ast.Attribute) and c.func.attr == "error", expanded=True)
             if unparse(e.call.func) == "%s.error" % vme]
     want = "%s.error(EACH(EACH(%s._handlers.get(%s.format().name, []))(%s)))" % (vme, vme, vobj, vobj)
     rep.check(want in recs, "WALK-2", "validate() runs the handlers of the object's kind", "ok",
